@@ -153,7 +153,31 @@ func c17ValueProp(rec *ev.Recorder) func(t *rapid.T) {
 		var c c17Case
 		c.Out = "\x00"
 		label := ""
-		switch rapid.IntRange(0, 7).Draw(t, "contract") {
+		switch rapid.IntRange(0, 8).Draw(t, "contract") {
+		case 8: // the names of the built-ins are ordinary globals: rebinding one must not change what the others do
+			collect := func(it string) string { return "{\nzr = []\nfor zi <- " + it + " zr = zr + [zi]\nzr\n}" }
+			checks := map[string][][2]string{
+				"fromto":  {{collect("indices(\"abc\")"), "[0, 1, 2]"}, {collect("elems([7, 8])"), "[7, 8]"}, {collect("indices([])"), "[]"}, {"toa([1, \"a\"])", ref.Display("[1, a]")}},
+				"elems":   {{collect("indices([5, 6])"), "[0, 1]"}, {collect("fromto(2, 5)"), "[2, 3, 4]"}},
+				"indices": {{collect("elems(\"xy\")"), ref.Display(ref.Arr{"x", "y"})}, {collect("fromto(0, 2)"), "[0, 1]"}},
+				"toa":     {{"aton(\"12\") + 1", "13"}, {collect("fromto(1, 3)"), "[1, 2]"}},
+				"aton":    {{"toa(12)", ref.Display("12")}, {collect("indices(\"ab\")"), "[0, 1]"}},
+				"write":   {{"toa([1])", ref.Display("[1]")}, {collect("elems([3])"), "[3]"}},
+			}
+			names := []string{"fromto", "elems", "indices", "toa", "aton", "write"}
+			name := rapid.SampledFrom(names).Draw(t, "rebound")
+			repl := rapid.SampledFrom([]string{
+				"(a, b) -> {\nzi = a\nwhile zi <= b {\nyield zi\nzi = zi + 1\n}\n}", // an inclusive range
+				"(a) -> {\nyield 41\nyield 42\nyield 43\nyield 44\n}",
+				"(a, b, c) -> 0", "7", "(a) -> a", "\"text\"",
+			}).Draw(t, "replacement")
+			c.Stmts = []string{name + " = " + repl}
+			c.Expect = []string{""}
+			for _, ch := range checks[name] {
+				c.Stmts = append(c.Stmts, ch[0])
+				c.Expect = append(c.Expect, ch[1])
+			}
+			label = "rebound:" + name
 		case 0: // write(x) prints what toa(x) returns
 			v := genPlainValue(t, 2)
 			c.Stmts = []string{"zv = " + calcLit(v), "write(zv)", "toa(zv)", "write(toa(zv))"}
